@@ -188,7 +188,14 @@ def enumeration_sweep(ctx, pms, tmpdir):
     rng = random.Random(7)
     n = 0
 
-    def expect_written(obj, what):
+    def expect_written(make, what):
+        try:
+            obj = make() if callable(make) else make
+        except Exception as e:
+            ctx.monitor("enumeration-sweep", fired=True)
+            ctx.violation("enumeration-sweep", "every documented enumeration value can be written", {"enumeration": what},
+                          observed="construction refused: %s: %s" % (type(e).__name__, str(e)[:200]), expected="written")
+            return
         outcome, info = try_write(obj, "dumps", tmpdir)
         ctx.monitor("enumeration-sweep", fired=outcome != "WRITTEN")
         if outcome != "WRITTEN":
@@ -198,17 +205,17 @@ def enumeration_sweep(ctx, pms, tmpdir):
     base["compose"]["id"] = "X-1-20200101.0"
     for t in domains.COMPOSE_TYPES:
         D = dict(base, compose=dict(base["compose"], type=t))
-        expect_written(formats.build(pms, "composeinfo", D), "compose type %s" % t)
+        expect_written(lambda D=D: formats.build(pms, "composeinfo", D), "compose type %s" % t)
         n += 1
     for t in domains.RELEASE_TYPES:
         D = dict(base, release=dict(base["release"], type=t, is_layered=True),
                  base_product={"name": "B", "short": "B", "version": "1", "type": t})
-        expect_written(formats.build(pms, "composeinfo", D), "release/base product type %s" % t)
+        expect_written(lambda D=D: formats.build(pms, "composeinfo", D), "release/base product type %s" % t)
         n += 1
     for name in domains.LABEL_NAMES:
         for ver in ("1.0", "0.1", "10.12"):
             D = dict(base, compose=dict(base["compose"], label="%s-%s" % (name, ver), final=True))
-            expect_written(formats.build(pms, "composeinfo", D), "label %s-%s" % (name, ver))
+            expect_written(lambda D=D: formats.build(pms, "composeinfo", D), "label %s-%s" % (name, ver))
             n += 1
     for t in domains.VARIANT_TYPES:
         v = {"id": "V", "uid": "V", "name": "V", "type": t, "arches": ["x86_64"], "paths": {}, "children": [],
@@ -216,35 +223,35 @@ def enumeration_sweep(ctx, pms, tmpdir):
         child = {"id": "C", "uid": "V-C", "name": "C", "type": t, "arches": ["x86_64"], "paths": {}, "children": [],
                  "release": FC.gen_release(rng, layered=True, hostile=False) if t == "layered-product" else None}
         v["children"] = [child]
-        expect_written(formats.build(pms, "composeinfo", dict(base, variants=[v])), "variant type %s" % t)
+        expect_written(lambda v=v: formats.build(pms, "composeinfo", dict(base, variants=[v])), "variant type %s" % t)
         n += 1
     for arch in domains.BINARY_ARCHES:
         v = {"id": "V", "uid": "V", "name": "V", "type": "variant", "arches": [arch], "paths": {"os_tree": {arch: "V/%s/os" % arch}},
              "children": [], "release": None}
-        expect_written(formats.build(pms, "composeinfo", dict(base, variants=[v])), "variant arch %s" % arch)
+        expect_written(lambda v=v: formats.build(pms, "composeinfo", dict(base, variants=[v])), "variant arch %s" % arch)
         n += 1
     comp = {"id": "X-1-20200101.0", "type": "production", "date": "20200101", "respin": 0, "label": None, "final": False}
     for i, t in enumerate(domains.IMAGE_TYPES):
         a = FI.gen_image_attrs(rng, t, (domains.IMAGE_TYPE_FORMATS[t] or ["iso"])[0])
-        expect_written(formats.build(pms, "images", {"compose": comp, "images": [{"attrs": a, "cells": [["Server", "x86_64"]]}]}),
+        expect_written(lambda a=a: formats.build(pms, "images", {"compose": comp, "images": [{"attrs": a, "cells": [["Server", "x86_64"]]}]}),
                        "image type %s" % t)
         n += 1
     for t, fmts in sorted(domains.IMAGE_TYPE_FORMATS.items()):
         for f in fmts:
             a = FI.gen_image_attrs(rng, t, f)
-            expect_written(formats.build(pms, "images", {"compose": comp, "images": [{"attrs": a, "cells": [["Server", "x86_64"]]}]}),
+            expect_written(lambda a=a: formats.build(pms, "images", {"compose": comp, "images": [{"attrs": a, "cells": [["Server", "x86_64"]]}]}),
                            "image type/format %s/%s" % (t, f))
             n += 1
     for arch in domains.BINARY_ARCHES:
         a = FI.gen_image_attrs(rng)
         a["arch"] = arch
-        expect_written(formats.build(pms, "images", {"compose": comp, "images": [{"attrs": a, "cells": [["Server", arch]]}]}),
+        expect_written(lambda a=a, arch=arch: formats.build(pms, "images", {"compose": comp, "images": [{"attrs": a, "cells": [["Server", arch]]}]}),
                        "image under arch %s" % arch)
         n += 1
     for t in domains.TREE_VARIANT_TYPES:
         D = FT.gen_description(rng, "single-variant", hostile=False)
         D["variants"][0]["children"] = [{"id": "C", "uid": D["variants"][0]["uid"] + "-C", "name": "C", "type": t, "paths": {}, "children": []}]
-        expect_written(formats.build(pms, "treeinfo", D), "treeinfo child variant type %s" % t)
+        expect_written(lambda D=D: formats.build(pms, "treeinfo", D), "treeinfo child variant type %s" % t)
         n += 1
     return n
 
